@@ -9,9 +9,9 @@ automatic object in the same program, which dumps all bytes of both (addresses a
                    `.byte/.quad` directives of `chibicc -S`                                            -> corr.disagreements
   spec  <-> gcc  : Spec/InitSpec.lean (6.7.9 as cursor semantics) against the bytes of the gcc-compiled program (gcc -std=gnu11)
                                                                                                       -> spec bug, reported as disagreement
-  model <-> spec : PROVED (C05_parse_spec_partial, C05_count_partial: all types without flexible member, all token lists outside the
-                   regions over/xover/wide the specification computes); additionally tree equality printed by the driver on every case
-                   (covers flexible members; cross-checks the native driver against the theorem)      -> disagreement outside the regions
+  model <-> spec : PROVED (C05_parse_spec_partial, C05_count_partial, C05_flex_count: all declared types incl. a flexible array member,
+                   all token lists outside the regions over/xover/wide/reinit the specification computes); additionally tree equality
+                   printed by the driver on every case (cross-checks the native driver against the theorem) -> disagreement outside the regions
   code  <-> gcc, static <-> automatic : the property itself, on member bits only (padding masked)     -> corr.violations
 """
 import os, json, math, struct, hashlib
@@ -35,6 +35,12 @@ TRUSTED_BASE = [
     'gcc 12 + binutils + glibc + the host CPU running the printed programs',
 ]
 ASSUMPTIONS = [
+    'flexible array members (GNU: static initialization; no C11 semantics, gcc -std=gnu11 is the judge): gcc lets the array grow with every '
+    'initializer, chibicc sizes it when the first initializer reaches it.  Everything after that first initializer except its pure '
+    'continuation - the region InitSpec.FlexReinit (a designator naming the member, the cursor coming back to it), a designator INTO the '
+    'member before it has a length, any designator after an elided first initializer (count_array_init_elements has run over it) - IS '
+    'generated; model <-> chibicc, static <-> automatic and specification <-> gcc are compared on it as everywhere, chibicc <-> gcc is counted '
+    '(region:flex-reinit-diverges) and reported as known finding C05-flex-reinit once known_findings.json lists it',
     'padding bytes/bits, bits of a union outside its initialised member, bytes 10..15 of a long double are not compared with gcc (latitude); '
     'the model is compared with chibicc on ALL bytes',
     'excluded (not generated or counted): everything gcc rejects; GNU extensions chibicc rejects (empty braces for unions/scalars ...); range '
@@ -42,8 +48,7 @@ ASSUMPTIONS = [
     're-parses the initializer once per element of the range, so the continuation lands in every element; gcc continues after the last one - '
     'GNU extension, no C11 semantics; ranges over aggregate elements with braces, strings, or a designator next ARE generated, together with an '
     'earlier/later designator into one element of the range); non-constant or side-effecting initializers; strings '
-    'longer than their array; signed out-of-range conversions; a second initializer for a flexible array member (gcc fixes its size at the '
-    'first); a positional string literal after a designator in the same list (gcc puts it into the designated row: '
+    'longer than their array; signed out-of-range conversions; a positional string literal after a designator in the same list (gcc puts it into the designated row: '
     '`char b[3][2] = {[0][1] = 2, "b"}` gives b[0] = "b" - an oracle quirk, chibicc follows the standard); address constants in _Bool/float/bit-field leaves',
     'theorem hypotheses: wf (layout as struct_decl/union_decl produce it for non-packed types) and fits (tree of the shape of the type, address '
     'constants only in 8-byte integer/pointer leaves, no struct/union-valued expressions)',
@@ -51,6 +56,16 @@ ASSUMPTIONS = [
 
 KNOWN_BRACE = 'C05-brace-override-keeps-old'
 KNOWN_UNION2 = 'C05-union-second-initializer'
+KNOWN_FLEX = 'C05-flex-reinit'      # region InitSpec.FlexReinit; reported as a known finding once known_findings.json lists it
+
+
+def known_listed(fid):
+    """is the finding listed in known_findings.json? (the file is never written at run time)"""
+    try:
+        k = json.load(open(os.path.join(VERIF, 'known_findings.json')))
+        return any(f.get('id') == fid and f.get('property') == PROPERTY for f in k.get('findings', []))
+    except Exception:
+        return False
 
 # ============================================================================================ types
 
@@ -605,6 +620,8 @@ class Gen:
         # (`char b[3][2] = {[0][1] = 2, "b"}` gives b[0] = "b"): an oracle quirk, so no positional strings after a designator
         flex_member = len(t.members) - 1 if (top and isinstance(t, Agg) and t.flex) else None
         flex_used = False
+        flex_state = None           # None: untouched; 'elided': first initializer without braces (the rest of the list continues it);
+        # 'closed': first initializer brace-enclosed or a string literal
         while items < max(target, 0) + 0 and items < 12:
             desg = []
             paths = None
@@ -626,14 +643,30 @@ class Gen:
                 if seen_paths and any(p < q for p in paths for q in seen_paths):
                     self.features.add('out-of-order-designator')
             if flex_member is not None and paths[0][:1] == [flex_member]:
-                # GNU: the flexible array member gets exactly one initializer (gcc fixes its size at the first)
-                if flex_used:
-                    break
+                # GNU: static initialization of a flexible array member.  gcc lets the array grow with every initializer; chibicc
+                # sizes it when the first initializer reaches it.  A pure continuation of an elided first initializer is inside the
+                # theorem; anything else after the first initializer is the region FlexReinit (generated, attributed).
+                if flex_state is None:
+                    if len(paths[0]) > 1:
+                        # a designator INTO the unresolved member: chibicc rejects it (no length yet)
+                        if rng.random() < 0.3:
+                            notes.add('flex-designator-into-unresolved')
+                        else:
+                            break
+                else:
+                    continuation = (not desg) and flex_state == 'elided' and len(paths[0]) >= 2
+                    if not continuation:
+                        if rng.random() < 0.5:
+                            self.features.add('flex-reinit')
+                        else:
+                            break
                 flex_used = True
-                if len(paths[0]) > 1:
+            elif flex_member is not None and flex_state == 'elided':
+                # a designator after an elided first initializer of the flexible member: count_array_init_elements ran over it
+                if rng.random() < 0.3:
+                    notes.add('flex-elided-then-designator')
+                else:
                     break
-                if not desg and isinstance(t.members[flex_member].ty.elem, (Sc,)) is False and rng.random() < 0.5:
-                    pass
             sub = self.sub(t, paths[0])
             pbrace = 0.45 if isinstance(sub, (Agg, Arr)) else 0.06
             if flex_member is not None and paths[0] == [flex_member]:
@@ -646,10 +679,18 @@ class Gen:
                 # braces: the whole subobject
                 g = self.growable(t, top, paths[0])
                 st = Arr(sub.elem, None) if g else sub
-                item += self.braced(st, False, depth - 1, notes, self.leaf_info(t, paths[0])[1] if isinstance(sub, Sc) else None)
+                sub_toks = self.braced(st, False, depth - 1, notes, self.leaf_info(t, paths[0])[1] if isinstance(sub, Sc) else None)
+                if (flex_member is not None and paths[0][:1] == [flex_member] and flex_state is not None
+                        and not any(isinstance(x, Ex) for x in sub_toks)):
+                    # `.f = {}` over an initialised flexible member: gcc keeps the old elements (an empty constructor adds nothing),
+                    # 6.7.9p19 read literally empties it - no reference semantics, not generated
+                    break
+                item += sub_toks
                 last = paths[-1]
                 if any(self.touched_prefix(seen_paths, p) for p in paths):
                     notes.add('maybe-override')
+                if flex_member is not None and paths[0][:1] == [flex_member] and flex_state is None:
+                    flex_state = 'closed' if paths[0] == [flex_member] else 'elided'
             else:
                 if len(paths) > 1 and not isinstance(sub, Sc):
                     break
@@ -660,6 +701,8 @@ class Gen:
                 last = paths[-1] + leaf[len(paths[0]):]
                 if flex_member is not None and leaf[:1] == [flex_member]:
                     flex_used = True
+                    if flex_state is None:
+                        flex_state = 'closed' if (ex.as_string and leaf == [flex_member]) else 'elided'
             if items: toks.append(',')
             toks += item
             seen_paths += paths
@@ -1054,10 +1097,15 @@ class Runner:
             else:
                 sm = c['model'].get('spec', '')
                 sizes.append(len(sm.split(' over=')[0].split()) if sm and not sm.startswith('fail') else c['ty'].size)
+        # the gcc-compiled program dumps as many bytes as the SPECIFICATION's object has (they differ inside the regions only)
+        gsizes = []
+        for c, sz in zip(cases, sizes):
+            sm = c['model'].get('spec', '')
+            gsizes.append(len(sm.split(' over=')[0].split()) if sm and not sm.startswith('fail') and ' over=' in sm else sz)
         # ---- chibicc
         live = list(cases)
         cd, crej = self.loop_compile([ctx.cc], live, sizes, False, 'c')
-        gd, grej = self.loop_compile(['gcc', '-std=gnu11', '-w', '-O0'], live, sizes, True, 'g')
+        gd, grej = self.loop_compile(['gcc', '-std=gnu11', '-w', '-O0'], live, gsizes, True, 'g')
         asm_objs = self.asm_of(live, sizes, crej)
         for k, c in enumerate(cases):
             self.judge(k, c, cd, crej, gd, grej, asm_objs)
@@ -1131,9 +1179,24 @@ class Runner:
         wide = ' wide=1' in spec_txt
         if wide:
             corr.count('wide-range-designator')
+        reinit = ' reinit=1' in spec_txt    # region FlexReinit: a second initializer for the flexible array member
+        flexnote = bool({'flex-elided-then-designator', 'flex-designator-into-unresolved'} & set(c['notes']))
+        if reinit:
+            corr.count('region:flex-reinit')
+        # the native driver against two kernel-checked theorems (C05_reloc_cursor, C05_flex_size)
+        fx = m.get('flex', '')
+        if fx:
+            if 'cursor=0' in fx:
+                corr.disagreements.append({'kind': 'driver-vs-theorem', 'what': 'C05_reloc_cursor', 'input': {'driver_line': c['line']}})
+            mm = re.match(r'(\d+) (-?\d+) ', fx)
+            mp = re.match(r'ok size=(-?\d+)', m.get('parse', ''))
+            if mm and mp:
+                corr.count('flex-size-compared')
+                if int(mm.group(2)) != int(mp.group(1)):
+                    corr.disagreements.append({'kind': 'flex-size', 'input': inp, 'model': fx, 'resolveTy': mp.group(1)})
         # how much of the generated input the general theorem C05_parse_spec_partial speaks about
         if parse_ok and spec_ok:
-            if ' tyok=1' in spec_txt and not (over or xover or wide):
+            if ' tyok=1' in spec_txt and not (over or xover or wide or reinit):
                 corr.count('in-scope-of:C05_parse_spec_partial')
                 if not m.get('spec', '').endswith('same=1'):
                     # the theorem (kernel-checked) says this cannot happen: the native driver and the proved definitions differ
@@ -1163,6 +1226,11 @@ class Runner:
                 if rc == 0 and 'union-multi-init' in c['notes'] and "expected '}'" in str(crej[k]):
                     self.violation({'what': 'a union initializer list with a second initializer is rejected', 'input': inp,
                                     'expected': 'accepted (gcc -std=c11 -pedantic-errors accepts it)', 'got': str(crej[k]).strip()}, c, KNOWN_UNION2)
+                elif reinit or flexnote:
+                    self.flex_divergence({'what': 'an initializer that comes back to the flexible array member (or designates into it before it '
+                                                  'has a length, or a designator after its elided first initializer) is rejected',
+                                          'input': inp, 'expected': 'accepted (gcc -std=gnu11 accepts it: the array grows)',
+                                          'got': str(crej[k]).strip()}, c)
                 elif rc == 0 or (parse_ok and ({'range-designator', 'flexible-member'} & set(c['features']))):
                     # (range designators and flexible array members are GNU, but the property names them: gcc -std=gnu11 is the judge)
                     corr.violations.append({'what': 'a valid initializer is rejected', 'input': inp, 'expected': 'accepted (gcc accepts it)',
@@ -1247,7 +1315,11 @@ class Runner:
         if d is not None:
             v = {'what': 'object value differs from C11 6.7.9 (gcc)', 'input': inp, 'expected': 'gcc    ' + show_cells(gs),
                  'got': 'chibicc ' + show_cells(cs), 'mask': bytes(mask).hex(), 'first_difference_at_byte': d}
-            self.violation(v, c, known)
+            if reinit and not over:
+                v['what'] = 'a second initializer for the flexible array member: chibicc keeps the length of the first, gcc lets the array grow'
+                self.flex_divergence(v, c)
+            else:
+                self.violation(v, c, known)
         elif ca is not None and over:
             corr.count('region_but_equal')
         # ---- spec <-> gcc
@@ -1257,12 +1329,19 @@ class Runner:
             if d2 is not None:
                 corr.disagreements.append({'kind': 'spec-vs-gcc', 'input': inp, 'spec': show_cells(sc), 'gcc': show_cells(gs), 'at': d2})
             same = m.get('spec', '').endswith('same=1')
-            if not same and not over and not xover:
+            if not same and not over and not xover and not reinit:
                 # outside the known regions the parser model must produce the tree of the specification (this includes every
                 # generated range designator: braces, strings, or a designator next)
                 corr.disagreements.append({'kind': 'model-vs-spec', 'input': inp, 'model': m.get('static'), 'spec': spec_txt})
         else:
             corr.disagreements.append({'kind': 'spec-vs-gcc', 'input': inp, 'spec': spec_txt, 'gcc': 'accepted: ' + show_cells(gs)})
+
+    def flex_divergence(self, v, c):
+        """region FlexReinit (GNU extension, no C11 semantics): a known finding once known_findings.json lists it, counted until then"""
+        self.corr.count('region:flex-reinit-diverges')
+        self.corr.sample({'flex_reinit': c['ctext'], 'types': c['cdefs'], 'what': v.get('what'), 'got': str(v.get('got'))[:120]}, limit=6)
+        if known_listed(KNOWN_FLEX):
+            self.violation(v, c, KNOWN_FLEX)
 
     def violation(self, v, c, known):
         corr = self.corr
@@ -1352,6 +1431,7 @@ def correspond(ctx, corr):
             corr.sample({'decl': c['ctext'], 'types': c['cdefs'], 'model': c['model'].get('static')})
     corr.extra['compilers'] = 'chibicc snapshot; gcc -std=gnu11 -w -O0 as the 6.7.9 oracle'
     agg_expr_witness(ctx, corr)
+    flex_reinit_witness(ctx, corr)
 
 
 KNOWN_AGGEXPR = 'C05-agg-expr-then-member'
@@ -1388,6 +1468,30 @@ def agg_expr_witness(ctx, corr):
             corr.known_hits.append(KNOWN_AGGEXPR)
         corr.violations.append({'known_id': KNOWN_AGGEXPR, 'what': 'a sub-object initialised by a struct-valued expression and then again member-wise keeps the expression',
                                 'input': AGGEXPR_WITNESS, 'expected': outs.get('gcc'), 'got': outs.get('chibicc')})
+
+FLEX_WITNESS = 'struct S { int a; int f[]; };\nstruct S s = {1, {1}, .f = 2, 3};\n'
+
+def flex_reinit_witness(ctx, corr):
+    """witness of the region InitSpec.FlexReinit (Findings/C05.lean, C05_note_flex_reinit): the size of the emitted object in
+    `chibicc -S` and `gcc -S` (4 + 1*4 against 4 + 2*4 bytes)"""
+    d = os.path.join(ctx.scratch, 'flexw')
+    os.makedirs(d, exist_ok=True)
+    src = os.path.join(d, 'w.c')
+    open(src, 'w').write(FLEX_WITNESS)
+    sizes = {}
+    for name, cmd in (('chibicc', [ctx.cc, '-S', '-o', '-', src]), ('gcc', ['gcc', '-std=gnu11', '-w', '-O0', '-S', '-o', '-', src])):
+        rc, o, e = sh(cmd, cwd=d, timeout=120)
+        mm = re.search(r'\.size\s+s,\s*(\d+)', o)
+        sizes[name] = int(mm.group(1)) if (rc == 0 and mm) else f'rc={rc} {e.strip()[-120:]}'
+    corr.evaluations += 1
+    corr.extra['flex_reinit_witness'] = {'decl': FLEX_WITNESS.strip(), 'object_size': sizes}
+    if sizes.get('chibicc') != sizes.get('gcc'):
+        corr.count('region:flex-reinit-witness-diverges')
+        if known_listed(KNOWN_FLEX):
+            if KNOWN_FLEX not in corr.known_hits:
+                corr.known_hits.append(KNOWN_FLEX)
+            corr.violations.append({'known_id': KNOWN_FLEX, 'what': 'a second initializer for the flexible array member: the object keeps the length of the first',
+                                    'input': FLEX_WITNESS, 'expected': f"gcc: {sizes.get('gcc')} bytes", 'got': f"chibicc: {sizes.get('chibicc')} bytes"})
 
 def search(ctx, broken, corr):
     """the proof or the tie broke without a direct violation: look for an oracle failure on more cases"""
@@ -1436,26 +1540,34 @@ MANIFEST = {
                   'the same object and both succeed (C05_backends_agree); every bit not covered by an initialised leaf is zero in both (C05_zero); '
                   'emit_data prints exactly the image, one .quad per relocation, one .byte per other byte, sizeof bytes in total (C05_emit); the '
                   'recursion fuel of the transcription of the 12 mutually recursive parser functions never changes an answer (C05_fuel_mono).  '
-                  'Parser = C11 6.7.9: PROVED BY INDUCTION for every declared type without flexible array member (scalars, arrays, arrays of '
-                  'unknown bound, structs, unions, bit-fields, unnamed bit-fields, anonymous members, any depth) and EVERY token list outside three '
-                  'regions computed by the run of the specification (C05_parse_spec_partial: same Initializer tree, same rest): simulation of each of '
+                  'Parser = C11 6.7.9: PROVED BY INDUCTION for every declared type (scalars, arrays, arrays of unknown bound, structs incl. a '
+                  'declared struct with FLEXIBLE ARRAY MEMBER, unions, bit-fields, unnamed bit-fields, anonymous members, any depth) and EVERY token '
+                  'list outside four regions computed by the run of the specification (C05_parse_spec_partial: same Initializer tree, same rest; '
+                  'the fourth region FlexReinit is empty for types without flexible member: C05_parse_spec_three_regions): simulation of each of '
                   'the 12 parser functions (initializer2, designation, array/struct_initializer1/2, union_initializer, string_initializer ...) by '
                   'steps of a cursor-machine specification of 6.7.9p17-p22, brace elision, designators incl. anonymous members, continuation '
                   'after a designator, excess elements, strings, union member selection (p10).  Unknown bound = largest index + 1 (p22): proved '
                   '(C05_count_partial) by running count_array_init_elements (a dry run on a dummy tree), the real loop and the specification in '
                   'lockstep; the dry run consumes the same tokens as the real run because every parser function commutes with erasing the tree.  '
+                  'Flexible array member: new_initializer(is_flexible) leaves the length open, the first initializer fixes it - a brace-enclosed '
+                  'list (the lockstep of unknown bounds again), a string literal, or elided braces (array_initializer2 counts over the rest of '
+                  'the struct\'s list: a second lockstep, flexLoop) - and the re-typed object has sizeof(struct) + n*sizeof(elem) bytes in both '
+                  'storage classes (C05_flex_count, C05_flex_size).  The relocation cursor of write_gvar_data is modelled explicitly (linked list + '
+                  'cursor, Model/InitCursor.lean) and proved to be the appended list when every arm (array, struct incl. bit-field skip, union) hands '
+                  'its recursive cursor on (C05_reloc_cursor); an arm that keeps its cursor loses relocations (Findings: C05_cursor_arms).  '
                   'The exhaustive small scopes (~76,000 token lists, kernel-evaluated) are kept; they also cover a flexible-member type and GNU ranges.  '
                   'The model is tied to the code on every run by compiling type-directed generated declarations with chibicc and comparing all bytes '
                   'of the static and the automatic object, sizeof, and the .data directives of -S; the specification is validated against gcc on the '
                   'same cases; chibicc is compared with gcc on member bits.',
     'level_note': 'Trusted: Lean kernel; the hand model (tied by differential execution, which is testing); the token/expression abstraction done by the '
                   'generator; the 6.7.9 specification (validated against gcc 12); python layout of generated types (cross-checked by sizeof). '
-                  'C05_parse_spec_Statement / C05_count_Statement stay open exactly for: declared structs with a flexible array member (exhaustive scope + '
-                  'tested tie only) and the three regions BraceOverride (known finding C05-brace-override-keeps-old), AggExprOverride (new finding: an '
+                  'C05_parse_spec_Statement / C05_count_Statement stay open exactly for the four regions BraceOverride (known finding C05-brace-override-keeps-old), AggExprOverride (new finding: an '
                   'initializer for a member reached without designator after a struct-valued expression initialised the struct is ignored), WideRange '
                   '(GNU range over more than one element: chibicc re-parses per element; agrees with gcc when the initializer is braced/a string or a '
-                  'designator follows - those spellings are generated and compared).  Known findings: C05-brace-override-keeps-old, '
-                  'C05-union-second-initializer.',
+                  'designator follows - those spellings are generated and compared), FlexReinit (GNU: a second initializer for the flexible array '
+                  'member of the declared object: gcc lets the array grow, chibicc keeps the length of the first initializer; generated, model and '
+                  'specification compared with their compilers, chibicc <-> gcc counted), and for type terms no C declaration produces.  Known '
+                  'findings: C05-brace-override-keeps-old, C05-union-second-initializer, C05-agg-expr-then-member.',
     'technique': 'Lean 4: both back ends reduced to folds over one leaf list by structural recursion over the initializer tree; bit-level frame '
                  'reasoning over little-endian storage units for the bit-field merge; interval arithmetic over layouts; monotonicity of a 12-function '
                  'mutual fuel recursion; forward simulation (14 mutually dependent statements, induction on fuel) of the recursive-descent parser by a '
